@@ -3,6 +3,7 @@ package main
 // Loading /repo, building verification units, generating obligations.
 
 import (
+	"go/ast"
 	"fmt"
 	"go/types"
 	"os"
@@ -27,6 +28,14 @@ type Engine struct {
 	funcs     map[string]*ssa.Function // contract key -> function
 	sentinels map[string]int           // package-level error variables initialised by errors.New
 	implCache map[string][]*ssa.Function
+	// names and types of the parameters and named locals of the functions under contract as they
+	// were when the baseline was recorded (baseline/locals.json): lets a contract follow a rename
+	baseLocals map[string]map[string]string
+	renames    map[string]bool
+	// every function of the repository packages as of the baseline (baseline/functions.json): a
+	// function that is not in it and has no contract is a helper somebody extracted - it is
+	// executed as part of its caller (site assertions, ghost counters and loop ordinals carry over)
+	baseFuncs map[string]bool
 }
 
 var repoPkgs = []string{"./internal/state", "./internal/storage", "./internal/spynode", "./internal/handlers", "./pkg/client"}
@@ -154,7 +163,7 @@ func (e *Engine) findFunc(sp *ssa.Package, name string) *ssa.Function {
 // ---------------------------------------------------------------------------------------
 
 func (e *Engine) newVerifier(fn *ssa.Function, fc *FuncContract) *FnVerifier {
-	v := &FnVerifier{eng: e, smt: NewSMT(), fn: fn, fc: fc, reg: newHeapReg(), mapTypes: map[string]*types.Map{},
+	v := &FnVerifier{loopOrdinals: map[int]bool{}, detached: map[ssa.Value]bool{}, eng: e, smt: NewSMT(), fn: fn, fc: fc, reg: newHeapReg(), mapTypes: map[string]*types.Map{},
 		epochAlloc: map[int]string{}, inlined: map[string]bool{}, usedExt: map[string]string{}, usedContracts: map[string]bool{},
 		typeTags: map[string]int{}, oblSeen: map[string]int{}, siteCount: map[string]int{}, heldKeys: map[string]bool{},
 		guards: map[string]string{}, guardInfo: map[string]KeyInfo{}, assertHits: map[string]int{}, sentinelKeys: map[string]string{}}
@@ -231,7 +240,8 @@ func (e *Engine) VerifyFunc(fn *ssa.Function, fc *FuncContract) (v *FnVerifier) 
 	}()
 	v.setupGuards()
 	st := &State{heaps: map[string]string{}, reach: "true", relock: map[string]bool{}}
-	fr := &Frame{v: v, fn: fn, fc: fc, vals: map[ssa.Value]Val{}, outSt: map[*ssa.BasicBlock]*State{}, edges: map[[2]int]string{}, top: true, params: map[string]Val{}}
+	fr := &Frame{v: v, fn: fn, fc: fc, vals: map[ssa.Value]Val{}, outSt: map[*ssa.BasicBlock]*State{}, edges: map[[2]int]string{}, top: true, transparent: true, params: map[string]Val{}}
+	fr.owner = fr
 	v.top = fr
 	var args []Val
 	for _, p := range fn.Params {
@@ -287,12 +297,7 @@ func (e *Engine) VerifyFunc(fn *ssa.Function, fc *FuncContract) (v *FnVerifier) 
 		}
 	}
 	for n := range fc.Loops {
-		found := false
-		for _, li := range fr.loops {
-			if li.ordinal == n {
-				found = true
-			}
-		}
+		found := v.loopOrdinals[n]
 		if !found && n >= 0 {
 			v.errs = append(v.errs, fmt.Sprintf("loop %d named in the contract does not exist", n))
 		}
@@ -408,4 +413,140 @@ func (e *Engine) importAlias(pkgPath, alias string) (string, bool) {
 		}
 	}
 	return "", false
+}
+
+
+// localsOf: every named parameter and local variable of fn with its type (a name declared twice
+// with different types lists both).
+func (e *Engine) localsOf(fn *ssa.Function) map[string]string {
+	out := map[string]string{}
+	add := func(name string, t types.Type) {
+		if name == "" || name == "_" {
+			return
+		}
+		ts := types.TypeString(t, nil)
+		if old, ok := out[name]; ok {
+			for _, o := range strings.Split(old, " | ") {
+				if o == ts {
+					return
+				}
+			}
+			ts = old + " | " + ts
+		}
+		out[name] = ts
+	}
+	for _, p := range fn.Params {
+		add(p.Name(), p.Type())
+	}
+	for _, b := range fn.Blocks {
+		for _, in := range b.Instrs {
+			if dr, ok := in.(*ssa.DebugRef); ok {
+				if id, ok := dr.Expr.(*ast.Ident); ok {
+					if !e.isLocalVar(fn, id) {
+						continue
+					}
+					t := dr.X.Type()
+					if dr.IsAddr {
+						t = deref(t)
+					}
+					add(id.Name, t)
+				}
+			}
+		}
+	}
+	return out
+}
+
+// renamedTo: the contract names a variable of fn that no longer exists; if exactly one variable of
+// the same type has appeared since the baseline and the old name is gone, that is the same
+// variable under its new name.
+func (e *Engine) renamedTo(fn *ssa.Function, name string) string {
+	base := e.baseLocals[fn.String()]
+	if base == nil {
+		return ""
+	}
+	typ, ok := base[name]
+	if !ok {
+		return ""
+	}
+	cur := e.localsOf(fn)
+	if _, still := cur[name]; still {
+		return ""
+	}
+	var cands []string
+	for n, t := range cur {
+		if _, was := base[n]; !was && t == typ {
+			cands = append(cands, n)
+		}
+	}
+	if len(cands) != 1 {
+		return ""
+	}
+	if e.renames == nil {
+		e.renames = map[string]bool{}
+	}
+	e.renames[fmt.Sprintf("%s: %s -> %s", fn.String(), name, cands[0])] = true
+	return cands[0]
+}
+
+// isLocalVar: id denotes a variable declared inside a function (not a field, not package level).
+func (e *Engine) isLocalVar(fn *ssa.Function, id *ast.Ident) bool {
+	if fn.Pkg == nil {
+		return false
+	}
+	p := e.pkgs[fn.Pkg.Pkg.Path()]
+	if p == nil || p.TypesInfo == nil {
+		return false
+	}
+	obj := p.TypesInfo.ObjectOf(id)
+	vr, ok := obj.(*types.Var)
+	if !ok || vr.IsField() {
+		return false
+	}
+	return vr.Parent() != nil && vr.Parent() != p.Types.Scope() && vr.Parent() != types.Universe
+}
+
+// isNewHelper: an in-repo function with a body and no contract that did not exist when the
+// baseline was recorded.
+func (e *Engine) isNewHelper(f *ssa.Function) bool {
+	return e.baseFuncs != nil && f != nil && f.Blocks != nil && e.inRepo(f) && !e.baseFuncs[f.String()] && e.contractOf(f) == nil
+}
+
+// repoFuncs: every function and method with a body in the repository packages.
+func (e *Engine) repoFuncs() []string {
+	var out []string
+	for fn := range ssautil.AllFunctions(e.prog) {
+		if fn.Blocks != nil && fn.Synthetic == "" && e.inRepo(fn) {
+			out = append(out, fn.String())
+		}
+	}
+	sort.Strings(out)
+	return out
+}
+
+// ownLoopCount: loops of fn plus those of the new helpers it calls (the ordinals fn occupies when
+// it is executed as part of a caller).
+func (e *Engine) virtualLoopCount(fn *ssa.Function, depth int) int {
+	n := 0
+	for _, b := range fn.Blocks {
+		hdr := false
+		for _, p := range b.Preds {
+			if b.Dominates(p) {
+				hdr = true
+			}
+		}
+		if hdr {
+			n++
+		}
+		if depth < 4 {
+			for _, in := range b.Instrs {
+				if c, ok := in.(*ssa.Call); ok {
+					if f, ok := c.Call.Value.(*ssa.Function); ok && !c.Call.IsInvoke() && e.isNewHelper(f) && e.extModel(f) == nil {
+						n += e.virtualLoopCount(f, depth+1)
+					}
+				}
+			}
+		}
+	}
+	return n
 }
